@@ -3,7 +3,9 @@
    search searchInts returns, on every sorted table, the last entry not above the offset
    (search_ints_spec); unpack therefore returns the unique line that contains an offset and the
    1-based column within it (unpack_correct); prepending k blank lines shifts the line of every
-   offset by exactly k and leaves its column unchanged (lines_shift).
+   offset by exactly k and leaves its column unchanged (lines_shift); the reported line:column
+   determines the offset again (unpack_inverse), so distinct offsets of a file are never reported
+   at the same place (unpack_injective).
    The path from scanner offsets through AST positions, the optimizer's replacement literals,
    the compiler's source map, the nearest-lower lookup at run time and the trace construction
    in throw is decided on every run on generated layouts with independently computed expected
@@ -32,6 +34,19 @@ Theorem C16_lines_shift :
   unpack (shift_lines k lines) (off + Z.of_nat k) = (l1 + Z.of_nat k, c1).
 Proof. exact lines_shift. Qed.
 Print Assumptions C16_lines_shift.
+
+Theorem C16_unpack_inverse :
+  forall lines off, sorted lines -> nth 0 lines 1 = 0 -> 0 <= off ->
+  let '(l, c) := unpack lines off in
+  1 <= l <= Z.of_nat (length lines) /\ 1 <= c /\ nth (Z.to_nat (l - 1)) lines 0 + c - 1 = off.
+Proof. exact unpack_inverse. Qed.
+Print Assumptions C16_unpack_inverse.
+
+Theorem C16_unpack_injective :
+  forall lines o1 o2, sorted lines -> nth 0 lines 1 = 0 -> 0 <= o1 -> 0 <= o2 ->
+  unpack lines o1 = unpack lines o2 -> o1 = o2.
+Proof. exact unpack_injective. Qed.
+Print Assumptions C16_unpack_injective.
 
 Example C16_table :
   unpack [0; 16; 31; 33; 49; 62; 73; 75; 76; 87] 51 = (5, 3) /\
